@@ -9,6 +9,8 @@ Three independent procedures, none of which shares code or ideas with solvor/hun
 
 * `minmax_enum`  - enumerate every matching (itertools.permutations).          any shape with <= ENUM_LIMIT matchings
 * `minmax_dp`    - dynamic programme over sets of used columns.                 longer side <= DP_LIMIT
+* `minmax_dp_short` - dynamic programme over sets of used lines of the SHORT side, one long-side line at a time.
+                                                             shorter side <= SHORT_DP_MAX, longer side of any length
 * `minmax_certified` - successive shortest augmenting paths (Bellman-Ford, integers) whose answer is only
   accepted together with an LP-duality certificate that is checked by `verify_certificate` (a dozen lines;
   this, not the search, is what has to be trusted).                             any size
@@ -176,6 +178,49 @@ def minmax_dp(K):
             if hi[m2] is None or v > hi[m2]:
                 hi[m2] = v
     return best_lo, best_hi
+
+
+# ------------------------------------------------------------------ 2b. subset DP over the SHORT side (elongated shapes)
+SHORT_DP_MAX = 6  # 2^6 states per line of the long side: a 6 x 200 matrix costs about 80 000 steps
+
+
+def minmax_dp_short(K):
+    """(min, max) for a matrix whose shorter side has at most SHORT_DP_MAX lines, any length of the longer side.
+    The lines of the long side are visited one after the other; the state is the set of short-side lines that already
+    have a partner.  A long-side line is either left out or given to one short-side line that is still free (every
+    matching arises exactly once: its pairs sorted by long-side index).  O(long * 2^short * short), integers only."""
+    r, c = dims(K)
+    if r > c:
+        K = transpose(K)
+        r, c = c, r
+    if r > SHORT_DP_MAX:
+        raise OracleError("minmax_dp_short: the shorter side is too long")
+    size = 1 << r
+    full = size - 1
+    lo = [None] * size
+    hi = [None] * size
+    lo[0] = hi[0] = 0
+    for j in range(c):
+        col = [K[i][j] for i in range(r)]
+        for mask in range(full - 1, -1, -1):  # descending: a target mask | bit > mask has been handled before, so the
+            a = lo[mask]                      # value read here is still the one without line j (one partner per line)
+            if a is None:
+                continue
+            b = hi[mask]
+            for i in range(r):
+                bit = 1 << i
+                if mask & bit:
+                    continue
+                m2 = mask | bit
+                v = a + col[i]
+                if lo[m2] is None or v < lo[m2]:
+                    lo[m2] = v
+                v = b + col[i]
+                if hi[m2] is None or v > hi[m2]:
+                    hi[m2] = v
+    if lo[full] is None:
+        raise OracleError("minmax_dp_short: no complete matching")
+    return lo[full], hi[full]
 
 
 # ------------------------------------------------------------------ 3. certified optimum
@@ -453,6 +498,8 @@ def which(r, c):
         return "enum"
     if max(r, c) <= DP_LIMIT:
         return "dp"
+    if min(r, c) <= SHORT_DP_MAX:
+        return "dp-short"
     return "certified"
 
 
@@ -466,6 +513,8 @@ def minmax(K):
         return minmax_enum(K)
     if w == "dp":
         return minmax_dp(K)
+    if w == "dp-short":
+        return minmax_dp_short(K)
     return minmax_certified(K)
 
 
@@ -523,6 +572,23 @@ def selftest(rng, rounds=250):
         if len(set(answers.values())) != 1:
             raise OracleError(f"oracles disagree on {K}: {answers}")
         if choice_matters(K) != (answers["dp"][0] != answers["dp"][1]):
+            raise OracleError(f"choice_matters wrong on {K}")
+        n += 1
+    # elongated shapes: the short-side DP against the certified search (and enumeration / the column-set DP where they apply)
+    for t in range(max(20, rounds // 4)):
+        a, b = rng.randint(1, SHORT_DP_MAX), rng.choice([rng.randint(5, 14), rng.randint(13, 40), rng.randint(13, 90)])
+        r, c = (a, b) if t % 2 else (b, a)
+        span = rng.choice([1, 3, 9, 1000])
+        K = [[rng.randint(-span, span) for _ in range(c)] for _ in range(r)]
+        got = minmax_dp_short(K)
+        answers = {"certified": minmax_certified(K)}
+        if n_matchings(r, c) <= ENUM_LIMIT:
+            answers["enum"] = minmax_enum(K)
+        if max(r, c) <= DP_LIMIT:
+            answers["dp"] = minmax_dp(K)
+        if any(v != got for v in answers.values()):
+            raise OracleError(f"minmax_dp_short disagrees on {K}: {got} vs {answers}")
+        if choice_matters(K) != (got[0] != got[1]):
             raise OracleError(f"choice_matters wrong on {K}")
         n += 1
     # the certificate checker must reject a wrong answer
